@@ -120,6 +120,15 @@ class _Shape(ast.NodeTransformer):
         self.generic_visit(node)
         return node
 
+    def visit_comprehension(self, node):
+        self.generic_visit(node)
+        it = node.iter
+        if isinstance(it, ast.Call) and isinstance(it.func, ast.Attribute) and it.func.attr == "keys" and \
+                not it.args and not it.keywords and not any(isinstance(n, (ast.Call, ast.Lambda))
+                                                            for n in ast.walk(it.func.value)):
+            node.iter = it.func.value
+        return node
+
     def visit_AugAssign(self, node):
         self.generic_visit(node)
         if isinstance(node.op, ast.Add):
@@ -191,14 +200,30 @@ def _adjacent_temporaries(block, uses_outside):
                 scope = head
             else:
                 hits = [n for n in ast.walk(nxt) if isinstance(n, ast.Name) and n.id == t]
+                if isinstance(nxt, ast.Assign):
+                    # `t = E; a, t, b = f(t)`: the target is written after the value was read
+                    tstores = [n for tg in nxt.targets for n in ast.walk(tg) if isinstance(n, ast.Name) and n.id == t
+                               and isinstance(n.ctx, ast.Store)]
+                    hits = [n for n in hits if not any(n is x for x in tstores)]
                 if len(hits) != 1 or not isinstance(hits[0].ctx, ast.Load):
                     continue
-                if any(isinstance(n, (ast.Lambda, ast.ListComp, ast.SetComp, ast.DictComp, ast.GeneratorExp))
-                       and any(x is hits[0] for x in ast.walk(n)) for n in ast.walk(nxt)):
+                def deferred(n):
+                    # inside a lambda / comprehension, except in the iterable of its first `for`, which is
+                    # evaluated where the comprehension stands
+                    if isinstance(n, ast.Lambda):
+                        return any(x is hits[0] for x in ast.walk(n))
+                    if isinstance(n, (ast.ListComp, ast.SetComp, ast.DictComp, ast.GeneratorExp)):
+                        if any(x is hits[0] for x in ast.walk(n.generators[0].iter)):
+                            return False
+                        return any(x is hits[0] for x in ast.walk(n))
+                    return False
+                if any(deferred(n) for n in ast.walk(nxt)):
                     continue
                 scope = nxt
-            if uses_outside(t, (st, nxt)):
-                continue
+            rebinds = isinstance(nxt, ast.Assign) and len(nxt.targets) == 1 and isinstance(nxt.targets[0], ast.Name) \
+                and nxt.targets[0].id == t and scope is nxt
+            if not rebinds and uses_outside(t, (st, nxt)):
+                continue        # (t = E; t = f(t): later reads see the second value, the first has one reader)
             val = st.value
 
             class R(ast.NodeTransformer):
@@ -216,7 +241,161 @@ def _adjacent_temporaries(block, uses_outside):
     return block
 
 
-def _reshape(fn_node):
+PARTITION_PURE = ("self._partition_contexts", "len")
+
+
+def _partitioned_tasks(fn_node):
+    """`Parallel(n_jobs=J, backend=self.backend)(delayed(F)(<chunk of X>, a..) for <chunks of the partition>)` in any
+    of the four spellings of the chunks (index range, (lo, hi) pairs, slice objects, a list of chunks) reads
+    PARTITIONED(F, X, a..); the lists that only named the chunks are dropped. (That the chunks are the consecutive
+    chunks of one partition is C05 R5.2's business; here both twins are read the same way.)"""
+    part = None
+    for n in ast.walk(fn_node):
+        if isinstance(n, ast.Assign) and isinstance(n.targets[0], ast.Tuple) and len(n.targets[0].elts) == 3 and \
+                isinstance(n.value, ast.Call) and _txt(n.value.func) == "self._partition_contexts" and \
+                all(isinstance(e, ast.Name) for e in n.targets[0].elts):
+            part = n
+    if part is None:
+        return fn_node
+    NJ, ST = part.targets[0].elts[0].id, part.targets[0].elts[2].id
+    defs = {}
+    for n in ast.walk(fn_node):
+        if isinstance(n, ast.Assign) and len(n.targets) == 1 and isinstance(n.targets[0], ast.Name):
+            defs.setdefault(n.targets[0].id, []).append(n)
+
+    def chunk_array(a0, gen):
+        """the array X when a0 is this task's chunk of X, else None"""
+        tg, it = gen.target, gen.iter
+        its = _txt(it)
+        if its == "range(%s)" % NJ and isinstance(tg, ast.Name) and isinstance(a0, ast.Subscript) and \
+                isinstance(a0.slice, ast.Slice) and a0.slice.lower is not None and a0.slice.upper is not None and \
+                _txt(a0.slice.lower) == "%s[%s]" % (ST, tg.id) and _txt(a0.slice.upper) == "%s[%s + 1]" % (ST, tg.id):
+            return _txt(a0.value), None
+        pair_its = ("zip(%s[:-1], %s[1:])" % (ST, ST), "zip(%s, %s[1:])" % (ST, ST))
+        src = it
+        named = None
+        if isinstance(it, ast.Name) and len(defs.get(it.id, [])) == 1:
+            named = it.id
+            src = defs[it.id][0].value
+            if isinstance(src, ast.Call) and _txt(src.func) in ("list", "tuple") and len(src.args) == 1:
+                src = src.args[0]
+        if _txt(src) in pair_its and isinstance(tg, ast.Tuple) and len(tg.elts) == 2 and \
+                isinstance(a0, ast.Subscript) and isinstance(a0.slice, ast.Slice) and a0.slice.lower is not None \
+                and a0.slice.upper is not None and _txt(a0.slice.lower) == _txt(tg.elts[0]) and \
+                _txt(a0.slice.upper) == _txt(tg.elts[1]):
+            return _txt(a0.value), named
+        if isinstance(src, ast.ListComp) and len(src.generators) == 1 and isinstance(tg, ast.Name):
+            g2 = src.generators[0]
+            inner = None
+            if _txt(g2.iter) == "range(%s)" % NJ and isinstance(g2.target, ast.Name):
+                lo, hi = "%s[%s]" % (ST, g2.target.id), "%s[%s + 1]" % (ST, g2.target.id)
+                inner = (lo, hi)
+            elif _txt(g2.iter) in pair_its and isinstance(g2.target, ast.Tuple) and len(g2.target.elts) == 2:
+                inner = (_txt(g2.target.elts[0]), _txt(g2.target.elts[1]))
+            if inner is not None:
+                e = src.elt
+                if isinstance(e, ast.Call) and _txt(e.func) == "slice" and [_txt(x) for x in e.args] == list(inner) \
+                        and isinstance(a0, ast.Subscript) and _txt(a0.slice) == tg.id:
+                    return _txt(a0.value), named
+                if isinstance(e, ast.Subscript) and isinstance(e.slice, ast.Slice) and e.slice.lower is not None and \
+                        e.slice.upper is not None and (_txt(e.slice.lower), _txt(e.slice.upper)) == inner and \
+                        isinstance(a0, ast.Name) and a0.id == tg.id:
+                    return _txt(e.value), named
+        return None
+
+    dropped = set()
+
+    class R(ast.NodeTransformer):
+        def visit_Call(self, node):
+            self.generic_visit(node)
+            if isinstance(node.func, ast.Call) and _txt(node.func.func) == "Parallel" and len(node.args) == 1 and \
+                    isinstance(node.args[0], (ast.GeneratorExp, ast.ListComp)) and \
+                    len(node.args[0].generators) == 1 and not node.args[0].generators[0].ifs and \
+                    not any(k.arg == "require" for k in node.func.keywords):
+                task = node.args[0].elt
+                if isinstance(task, ast.Call) and isinstance(task.func, ast.Call) and \
+                        _txt(task.func.func) == "delayed" and len(task.func.args) == 1 and task.args and \
+                        not task.keywords:
+                    got = chunk_array(task.args[0], node.args[0].generators[0])
+                    if got is not None:
+                        x, named = got
+                        if named:
+                            dropped.add(named)
+                        return ast.Call(func=ast.Name(id="PARTITIONED", ctx=ast.Load()),
+                                        args=[task.func.args[0], ast.parse(x, mode="eval").body] + task.args[1:],
+                                        keywords=[])
+            return node
+    fn_node = R().visit(fn_node)
+    # the chunk lists that are no longer read
+    if dropped:
+        still = {n.id for n in ast.walk(fn_node) if isinstance(n, ast.Name) and isinstance(n.ctx, ast.Load)}
+
+        def prune(stmts):
+            out = []
+            for st in stmts:
+                if isinstance(st, ast.Assign) and len(st.targets) == 1 and isinstance(st.targets[0], ast.Name) and \
+                        st.targets[0].id in dropped and st.targets[0].id not in still:
+                    continue
+                for fld in ("body", "orelse"):
+                    b = getattr(st, fld, None)
+                    if isinstance(b, list) and b and isinstance(b[0], ast.stmt):
+                        setattr(st, fld, prune(b) or [ast.Pass()])
+                out.append(st)
+            return out
+        fn_node.body = prune(fn_node.body)
+    return fn_node
+
+
+def _hoist_invariants(fn_node):
+    """leading statements of a loop body that assign effect-free, loop-invariant values (the partition of the rows
+    computed anew for every hash table) are read as standing in front of the loop"""
+    from ..model import _pure_expr
+
+    def pure(e):
+        class Hide(ast.NodeTransformer):
+            def visit_Call(self, n):
+                self.generic_visit(n)
+                if _txt(n.func) in PARTITION_PURE:
+                    return ast.Tuple(elts=list(n.args), ctx=ast.Load())
+                return n
+        return _pure_expr(Hide().visit(copy.deepcopy(e)))
+
+    def do(block):
+        out = []
+        for st in block:
+            for fld in ("body", "orelse"):
+                b = getattr(st, fld, None)
+                if isinstance(b, list) and b and isinstance(b[0], ast.stmt) and not isinstance(st, ast.For):
+                    setattr(st, fld, do(b))
+            if isinstance(st, ast.For) and not st.orelse:
+                st.body = do(st.body)
+                loopvars = {n.id for n in ast.walk(st.target) if isinstance(n, ast.Name)}
+                while st.body and isinstance(st.body[0], ast.Assign) and len(st.body) > 1:
+                    c = st.body[0]
+                    tnames = {n.id for tg in c.targets for n in ast.walk(tg) if isinstance(n, ast.Name)}
+                    if not all(isinstance(n, (ast.Name, ast.Tuple, ast.Store, ast.Load)) for tg in c.targets
+                               for n in ast.walk(tg)):
+                        break
+                    reads = {n.id for n in ast.walk(c.value) if isinstance(n, ast.Name)}
+                    assigned_later = {n.id for s2 in st.body[1:] for n in ast.walk(s2) if isinstance(n, ast.Name) and
+                                      isinstance(n.ctx, (ast.Store, ast.Del))}
+                    if not pure(c.value) or reads & (loopvars | (assigned_later - tnames)) or tnames & loopvars or \
+                            (reads - tnames) & assigned_later:
+                        break
+                    # a target that the statement also reads (n = f(n)) is invariant only if an earlier hoisted
+                    # statement fixed its value at the top of every turn: then it was hoisted just before
+                    if reads & tnames and not (out and isinstance(out[-1], ast.Assign) and
+                                               reads & tnames <= {n.id for tg in out[-1].targets for n in ast.walk(tg)
+                                                                  if isinstance(n, ast.Name)}):
+                        break
+                    out.append(st.body.pop(0))
+            out.append(st)
+        return out
+    fn_node.body = do(fn_node.body)
+    return fn_node
+
+
+def _reshape(fn_node, twins=False):
     lists = set()
     for n in ast.walk(fn_node):
         if isinstance(n, ast.Assign) and len(n.targets) == 1 and isinstance(n.targets[0], ast.Name) and \
@@ -228,6 +407,9 @@ def _reshape(fn_node):
                                                   _txt(n.value.func) == "list"):
             lists.discard(n.targets[0].id)
     fn_node = _Shape(lists).visit(fn_node)
+    if twins:       # only for the comparison of library / simulator twins (C15 R15.5)
+        fn_node = _partitioned_tasks(fn_node)
+        fn_node = _hoist_invariants(fn_node)
 
     def all_uses(t, skip):
         total = sum(1 for n in ast.walk(fn_node) if isinstance(n, ast.Name) and n.id == t)
@@ -283,7 +465,7 @@ def normal_form(fn_node, rename_calls=None, resolver=None) -> str:
         node = _Keywordify(resolver).visit(node)
     t = _Alpha(local_names(node), rename_calls or {})
     node = t.visit(node)
-    node = _reshape(node)
+    node = _reshape(node, twins=True)
     node = sem_norm(node)
     # names in order of first appearance of the final form
     order = {}
@@ -298,6 +480,22 @@ def normal_form(fn_node, rename_calls=None, resolver=None) -> str:
             if n.arg.startswith("v") and n.arg[1:].isdigit():
                 n.arg = order.setdefault(n.arg, "w%d" % len(order))
             return n
+    # variables bound by a comprehension are local to it: b0, b1, .. per comprehension
+    class Bound(ast.NodeTransformer):
+        def _comp(self, n):
+            names = []
+            for g in n.generators:
+                for x in ast.walk(g.target):
+                    if isinstance(x, ast.Name) and x.id not in names:
+                        names.append(x.id)
+            m = {nm: "b%d" % i for i, nm in enumerate(names)}
+            for x in ast.walk(n):
+                if isinstance(x, ast.Name) and x.id in m:
+                    x.id = m[x.id]
+            self.generic_visit(n)
+            return n
+        visit_ListComp = visit_SetComp = visit_DictComp = visit_GeneratorExp = _comp
+    node = Bound().visit(node)
     node = Renum().visit(node)
     ast.fix_missing_locations(node)
     return ast.unparse(node)
